@@ -24,7 +24,7 @@ CORE_ALLOWED = ("kwargs_param", "multiline_summary", "float_default", "negative_
                 "default_without_prose", "str_with_dot", "str_with_quote", "multiline_prose", "foreign_tokens", "returns",
                 "returns_only", "nodefault_after_default", "int_literal", "single_literal", "required_bool", "none_default", "returns_default")
 FRONTIER_KNOBS = irprops.frontier_knobs((
-    "untyped_param", "bare_param", "empty_str", "code_default",
+    "untyped_param", "bare_param", "empty_str", "code_default", "long_return_prose",
 ))
 FLOORS = {"has_default": 0.3}
 KIND = "argparse"
